@@ -67,6 +67,7 @@ func main() {
 	if len(os.Args) < 2 {
 		usage()
 	}
+	sortProps()
 	switch os.Args[1] {
 	case "run":
 		if len(os.Args) < 4 {
@@ -151,6 +152,12 @@ func writeOverlay() error {
 	})
 	if err != nil {
 		return err
+	}
+	// porcupine v1.3.0 (module cache, unmodified) as an in-tree package so
+	// harnesses can check recorded histories in-process
+	pdir := filepath.Join(modCache(), "github.com/anishathalye/porcupine@v1.3.0")
+	for _, f := range []string{"bitset.go", "checker.go", "model.go", "porcupine.go"} {
+		repl[filepath.Join(repoRoot, "internal/verifkit/porcupine", f)] = filepath.Join(pdir, f)
 	}
 	// instrumented unix_volume.go, if it has been generated
 	instr := filepath.Join(verifRoot, "build", "instr", "unix_volume.go")
